@@ -59,10 +59,10 @@ struct ramq { marked_ptr _head, _tail; };
 #define NPTR(i) ((word_t)(((i) + 1) << 6))
 
 /* ---- harness inputs (named in_* for the native replays) ---- */
-unsigned in_e, in_pop_t, in_push_t, in_gk; word_t in_val;
+unsigned in_e, in_pop_t, in_push_t, in_gk, in_ki, in_kj; word_t in_val;
 
 /* ---- ghost state ---- */
-unsigned g_released, g_get_count, g_del_total, g_alloc_count, g_delete_count, g_fresh, g_valdel;
+unsigned g_released, g_get_count, g_del_total, g_alloc_count, g_delete_count, g_fresh, g_valdel, g_alloc_fail_from;
 word_t g_get_val, g_trk_val, g_last_alloc;
 _Bool g_alloc_may_fail, g_dtor_stub, mon_check; int mon_role;       /* mon_role: 1 = this thread is a producer, 2 = a consumer */
 
@@ -116,11 +116,13 @@ static void havoc_shared(_Bool rely);
 /* INT: nothing is carried from one iteration to the next except: every node this thread allocated and could not link has been deleted again,
  * nothing was destroyed, and an iteration that published the value (successful entry CAS / link CAS) does not come back here */
 #define XV_INV_PUSH (g_alloc_count == g_delete_count && g_valdel == 0 && g_del_total == 0 && !it_entry_cas_ok && !it_link_ok \
+                     && g_released == 0 && value == g_raw /* not published => the argument object still owns the value (matters when a later `new` throws) */ \
                      && (t == 0 || (is_nptr(t) && a_live[nidx(t) % NN])))
-#define XV_HAVOC_PUSH t = nondet_word(); value = nondet_bool() ? value : 0; IT_RESET; havoc_shared(0) \
+#define XV_HAVOC_PUSH t = nondet_word(); value = nondet_word(); g_released = nondet_uint(); IT_RESET; havoc_shared(0) \
   /* writes: idx expected next new_node (declared inside); shared cells via GDEREF(t)->entries[idx].value / push_idx / next (lowered to N_entry, N_push_idx, N_next) and self->_tail */
 #define XV_INV_POP ((h == 0 || (is_nptr(h) && a_live[nidx(h) % NN])) && g_get_count == 0 \
-                    && (!(it_ticket_drawn && it_idx < max_idx) || (it_entry_xchg && it_entry_seen == 0)))
+                    && (!(it_ticket_drawn && it_idx < max_idx) || (it_entry_xchg && it_entry_seen == 0)) /* a ticket without value: entry invalidated */ \
+                    && (it_head_cas_ok ? (it_reclaims == 1 && it_reclaimed == it_guard) : it_reclaims == 0)  /* unlinked <=> retired, once */)
 #define XV_HAVOC_POP h = nondet_word(); IT_RESET; havoc_shared(0) \
   /* writes: idx value cnt expected next pop_idx push_idx (declared inside); shared cells via GDEREF(h)->entries[idx].value / pop_idx (lowered to N_entry, N_pop_idx) and self->_head */
 /* SEQ: the loops are cut by invariants that relate the current state to the pre-state snapshot (defined below) */
@@ -172,7 +174,7 @@ static void havoc_words(struct node* n) {
 }
 /* ---- new / delete of nodes: pool allocation running the REAL lowered constructor / destructor ---- */
 static marked_ptr XV_NEW_NODE(raw_value_type item) {
-  if (g_alloc_may_fail && nondet_bool()) { xv_threw = XV_EXC_bad_alloc; return 0; }
+  if (g_alloc_may_fail && g_alloc_count >= g_alloc_fail_from && nondet_bool()) { xv_threw = XV_EXC_bad_alloc; return 0; }   /* std::bad_alloc */
   XV_MODEL_ASSERT("pool large enough", g_fresh < NN && !a_live[g_fresh % NN]);
   XV_ASSUME(g_fresh < NN);
   unsigned i = g_fresh++;
@@ -358,7 +360,7 @@ static _Bool inv_popseq(void) {
 #endif
 static void reset_ghost(void) {
   g_released = 0; g_get_count = 0; g_del_total = 0; g_alloc_count = 0; g_delete_count = 0; g_valdel = 0;
-  g_get_val = nondet_word(); g_trk_val = 0; g_last_alloc = 0; g_alloc_may_fail = 0; g_dtor_stub = 0;
+  g_get_val = nondet_word(); g_trk_val = 0; g_last_alloc = 0; g_alloc_may_fail = 0; g_alloc_fail_from = 0; g_dtor_stub = 0;
   xv_threw = 0; IT_RESET; it_guard = 0; mon_check = 0;
 }
 
@@ -367,7 +369,8 @@ void h_idx(void) {
 #if !(XV_STATIC_ASSERTS) || !(XV_E > 0)
   XV_CANARY("idx.config_rejected");      /* this entries_per_node does not compile: nothing to prove */
 #else
-  unsigned ki = nondet_uint(), kj = nondet_uint();
+  in_e = XV_E; in_ki = nondet_uint(); in_kj = nondet_uint();
+  unsigned ki = in_ki, kj = in_kj;
   XV_ASSUME(ki < XV_E && kj < XV_E);
   unsigned a_push, b_push, a_pop, b_pop, a_dt, b_dt;
   /* the statements / expression of the header, applied to the counter values of the two tickets (variables named as in the header) */
@@ -695,9 +698,15 @@ void h_push_int(void) {
   reset_ghost();
   struct ramq q; setup_int(&q);
   g_raw = nondet_word(); XV_ASSUME(g_raw != 0 && (g_raw & MARK63) == 0); g_trk_val = g_raw;
-  env_kind = 0; env_on = 1; mon_check = 1; mon_role = 1;
+  env_kind = 0; env_on = 1; mon_check = 1; mon_role = 1; g_alloc_may_fail = 1;
   ram_push_cut(&q, g_raw);
   env_on = 0;
+  if (xv_threw == XV_EXC_bad_alloc) {
+    /* `new node` failed: push exits by exception; the value must still belong to the argument object (the caller's side destroys it) */
+    XV_OBL("ram.push.throw_keeps_value", g_released == 0 && g_alloc_count == g_delete_count && g_valdel == 0 && !it_entry_cas_ok && !it_link_ok);
+    XV_CANARY("push_int.alloc_failed");
+    return;
+  }
   /* push returns only from an iteration in which its own CAS published the value */
   XV_OBL("ram.push.commit", xv_threw == 0 && ((it_entry_cas && it_entry_cas_ok && !it_link_tried) || (it_link_tried && it_link_ok && !it_entry_cas)));
   XV_OBL("ram.push.commit", it_link_ok ? (it_tail_cas == 1 && g_alloc_count == g_delete_count + 1) : (it_tail_cas == 0 && g_alloc_count == g_delete_count));
@@ -737,9 +746,19 @@ void h_push_rollback(void) {
   g_fresh = 2; q._tail = NPTR(0); q._head = nondet_word(); mon_q = &q; word_t head0 = q._head;
   in_val = nondet_word(); XV_ASSUME(in_val != 0 && (in_val & MARK63) == 0); g_trk_val = in_val; g_raw = in_val;
   env_kind = 1; env_linked = 0; env_on = 1;
+  g_alloc_may_fail = 1; g_alloc_fail_from = 1;          /* the first allocation succeeds, a second one may throw std::bad_alloc */
   ram_push(&q, in_val);
   env_on = 0;
   struct node P[4]; for (unsigned i = 0; i < 4; i++) P[i] = snap(i);
+  if (xv_threw == XV_EXC_bad_alloc) {
+    /* push exits by exception after it had lost the race: the first node is gone, nothing destroyed, and the argument object must still own the value */
+    XV_OBL("ram.push.throw_keeps_value", g_released == 0);
+    XV_OBL("ram.push.rollback", g_valdel == 0 && g_del_total == 0 && g_alloc_count == 1 && g_delete_count == 1 && P[2].g_deleted == 1 && !P[2].g_live);
+    for (unsigned i = 0; i < 4; i++) for (unsigned s = 0; s < XV_E; s++)
+      XV_OBL("ram.push.throw_keeps_value", !(P[i].g_live && P[i].ent[s] == in_val && !((i == 0 && T0.ent[s] == in_val) || (i == 1 && N0.ent[s] == in_val))));
+    XV_CANARY("rollback.second_alloc_failed");
+    return;
+  }
   XV_OBL("ram.push.rollback", xv_threw == 0 && g_released >= 1);
   XV_OBL("ram.push.rollback", g_valdel == 0 && g_del_total == 0);                        /* nothing destroyed */
   /* the value is in exactly one entry of a live node */
